@@ -44,8 +44,7 @@ UNPROVEN = ['"images to total p" for a normalised pupil is the composition norma
             'Wavefront.insert(out, weight) = out + weight·intensity is evaluated by the oracle only',
             'propagate_fft_energy needs isotropic dx·du (C09: the FFT propagator has one wavelength for two grids otherwise — known finding D9); '
             'the FFT correspondence model (fftPath on embedAll) is the hand model of Model/Energy.lean, not C09 propagateFft']
-ASSUMPTIONS = ['normalize_power on integer-dtype arrays: |a|² must fit the array dtype — np.abs(array)**2 is evaluated in that dtype, so e.g. a uint8 amplitude [[3,20],[17,11]] with power 2 returns power 5.34 and an int16 amplitude containing 300 returns NaN (reported as a finding candidate; not generated)',
-               'commensurate sampling: 1/α is an integer number of samples per axis, at least the wavefront shape',
+ASSUMPTIONS = ['commensurate sampling: 1/α is an integer number of samples per axis, at least the wavefront shape',
                'sample sets lie inside one period; all fields lie on the wavefront canvas (Fits)']
 
 TOL = 1e-9
@@ -107,9 +106,10 @@ def _case(rng, kmax):
         # constant (and drops when off-centre); such pupils are not generated, the support always spans > 1 pixel or all of 1x1
         if np.count_nonzero(amp) < 2: amp = rng.uniform(0.1, 2.0, m * n)
         if not cplx and rng.integers(0, 5) == 0:
-            # integer amplitudes whose squares fit their dtype (np.abs(array)**2 is evaluated in the array's own dtype: see ASSUMPTIONS)
-            c['amp_dtype'] = ['int16', 'int32', 'uint8'][int(rng.integers(0, 3))]
-            amp = np.minimum(np.round(amp * 6) + 1, 15 if c['amp_dtype'] == 'uint8' else 150)
+            # integer-dtype amplitudes, including values whose squares do not fit the dtype (fixed in 8e13caf: squares in floating point)
+            c['amp_dtype'] = ['int16', 'int32', 'uint8', 'int8'][int(rng.integers(0, 4))]
+            hi = {'int16': 3000, 'int32': 60000, 'uint8': 255, 'int8': 127}[c['amp_dtype']]
+            amp = np.minimum(np.round(amp * hi / 2) + 1, hi)
         if rng.integers(0, 6) == 0: c['default_power'] = True
         c.update({'amp': [float(x) for x in amp], 'amp_im': [float(x) for x in rng.normal(size=m * n)] if cplx else None,
                   'opd': [float(x) for x in rng.normal(size=m * n) * 1e-7], 'power': float(rng.uniform(0.1, 50)),
